@@ -91,6 +91,8 @@ def gen_scenario(ch: Choices, *, backends, max_nodes=8, types=None, cache='somet
                 how = 'raise'
                 if die and backend in ('sim', 'fork', 'spawn') and ft.chance(1, 3):
                     how = 'die'
+                elif ft.chance(1, 6):
+                    how = 'sysexit'
                 f[str(n['id'])] = how
         sc['fail'] = f
     return sc
@@ -218,16 +220,45 @@ class Check:
     def run(self, ch: Choices, workdir: str, tier: str) -> dict:
         sc = self.gen(ch, tier)
         d = tempfile.mkdtemp(dir=workdir)
+        second = False
         try:
             out = execute(sc, ch, d)
-            facts = O.Facts(sc, out)
-            vs = self.oracle(sc, out, facts)
+            if out.kind == 'warmup-failed':
+                vs = [O.V(self.id, 'earlier-run-failed', f'the earlier serial run that creates the cache pre-state (all tasks succeed) '
+                          f'failed: {out.exc["type"]}: {out.exc["msg"][:200]}', exc=out.exc['type'])]
+            else:
+                facts = O.Facts(sc, out)
+                vs = self.oracle(sc, out, facts)
+                if self.second_call and not vs and out.kind == 'return' and ch.stream('config').chance(1, 3):
+                    # the same task objects are handed to a second run_tasks call (new Lab, no storage,
+                    # another context): nothing of the first call may leak into it
+                    sc2 = {k: v for k, v in sc.items() if k not in ('cached', 'bust_cache', 'run_task', 'prelude')}
+                    sc2.update({'storage': 'none', 'gen_main': 7, 'backend': ch.stream('config').pick(['serial', sc['backend'], 'sim'])})
+                    out2 = execute(sc2, ch, None, built=out.built)
+                    facts2 = O.Facts(sc2, out2)
+                    for v in self.oracle(sc2, out2, facts2):
+                        v['detail'] = '[second run_tasks call on the same task objects, other context] ' + v['detail']
+                        v['sig']['second_call'] = True
+                        vs.append(v)
+                    second = True
         finally:
             shutil.rmtree(d, ignore_errors=True)
-        return self.record(sc, out, vs, ch)
+        r = self.record(sc, out, vs, ch)
+        if second:
+            r['probes']['second-call-same-objects'] = 1
+        return r
+
+    owns_liveness = False
+    second_call = False
 
     def record(self, sc, out, vs, ch, extra=None):
+        capped = out.kind == 'abort' and out.abort in ('step-cap', 'vtime-cap', 'wait-cap')
+        if capped and not self.owns_liveness:
+            # a run that hit a simulator cap decides nothing about this property (only C11 / C14 own liveness)
+            vs = []
         r = result_record(self.id, sc, out, vs, ch, extra)
+        if capped and not self.owns_liveness:
+            r['inconclusive'] = 1
         r['sample'] = {'spec': compact_spec(sc), 'completion_order': r['order'], 'faults': r['faults'],
                        'outcome': r['outcome'], 'schedule_digest': r['sched_digest']}
         return r
@@ -242,9 +273,11 @@ PAR_BACKENDS = [('sim', 5), ('fork', 4), ('spawn', 3)]
 
 class C01(Check):
     id = 'C01'
+    second_call = True
+    expected_probes = ('second-call-same-objects',)
 
     def gen(self, ch, tier):
-        sc = gen_scenario(ch, backends=ALL_BACKENDS, cache='sometimes')
+        sc = gen_scenario(ch, backends=ALL_BACKENDS, cache='sometimes', bust=True)
         sc['gen_pre'] = sc['gen_main'] = 1      # value must not depend on the cache pre-state
         cfg = ch.stream('config')
         if len(sc['requested']) == 1 and cfg.chance(1, 4):
@@ -257,9 +290,11 @@ class C01(Check):
 
 class C02(Check):
     id = 'C02'
+    second_call = True
+    expected_probes = ('second-call-same-objects',)
 
     def gen(self, ch, tier):
-        sc = gen_scenario(ch, backends=ALL_BACKENDS, cache='sometimes', fail=1, die=True, cof=(True, True, False))
+        sc = gen_scenario(ch, backends=ALL_BACKENDS, cache='sometimes', fail=1, die=True, cof=(True, True, False), bust=True)
         return with_die_kills(sc, ch)
 
     def oracle(self, sc, out, facts):
@@ -288,6 +323,10 @@ class C04(Check):
                           fail=1, die=True, max_nodes=10,
                           types=[('TA', 2), ('TB', 4), ('TC', 4), ('TD', 3), ('TN', 1), ('TN1', 3), ('TP', 2)])
         sc['swarm']['gate_mode'] = 'hold'
+        cfg = ch.stream('config')
+        if cfg.chance(1, 3):
+            # an earlier run in the same interpreter with another worker limit
+            sc['prelude'] = {'max_workers': cfg.pick([3, None, 2, 1]), 'n': 3}
         return with_die_kills(sc, ch)
 
     def oracle(self, sc, out, facts):
@@ -304,6 +343,9 @@ class C05(Check):
                           types=[('TA', 3), ('TB', 3), ('TC', 4), ('TD', 3), ('TN', 2), ('TN1', 2), ('TP', 2)])
         sc['swarm']['gate_mode'] = 'rest'
         sc['swarm']['w_timeout'] = 2
+        cfg = ch.stream('config')
+        if cfg.chance(1, 4):
+            sc['prelude'] = {'max_workers': cfg.pick([1, 2, 3, None]), 'n': 3}
         return with_die_kills(sc, ch)
 
     def oracle(self, sc, out, facts):
@@ -330,6 +372,7 @@ class C10(Check):
 
 class C11(Check):
     id = 'C11'
+    owns_liveness = True
 
     def gen(self, ch, tier):
         sc = gen_scenario(ch, backends=[('serial', 1), ('sim', 4), ('fork', 5), ('spawn', 3)], cache='sometimes',
@@ -766,4 +809,56 @@ class C06(Check):
         return r
 
 
+def _c06_batch_extra(self, tier):
+    """S3: first run / second run on the real backends with task classes defined in the
+    __main__ script.  No schedule dependence; declared as a real-execution probe."""
+    import json
+    import subprocess
+    import sys
+    from . import REPO_DIR, VERIF_DIR
+    from .driver import scratch_root
+    vs = []
+    samples = []
+    pairs = [('spawn', 'fork'), ('fork', 'spawn'), ('spawn', 'serial')]
+    if tier == 'thorough':
+        pairs += [('serial', 'spawn'), ('spawn', 'spawn'), ('fork', 'fork'), ('serial', 'fork')]
+    n = 0
+    for b1, b2 in pairs:
+        d = tempfile.mkdtemp(prefix='simlab-c06real-', dir=scratch_root())
+        try:
+            env = dict(os.environ)
+            env['PYTHONPATH'] = REPO_DIR
+            try:
+                p = subprocess.run([sys.executable, os.path.join(VERIF_DIR, 'simlab', 'realcache.py'), b1, b2, d],
+                                   capture_output=True, text=True, timeout=180, env=env, cwd=d)
+            except subprocess.TimeoutExpired:
+                vs.append(O.V('C06', 'real-probe-timeout', f'real {b1} -> {b2} history did not finish in 180 s', first=b1, second=b2))
+                continue
+            line = [x for x in p.stdout.splitlines() if x.startswith('CACHEPROBE ')]
+            if not line:
+                vs.append(O.V('C06', 'real-probe-failed', f'real {b1} -> {b2} history failed: {p.stderr[-300:]}', first=b1, second=b2))
+                continue
+            n += 1
+            info = json.loads(line[0][11:])
+            samples.append({'real_history': [b1, b2], 'executed_second': info['executed_second']})
+            want = [{'sum': 3, 'label': 'x'}, {'leaf': 1}]
+            if info['first'] != want:
+                vs.append(O.V('C06', 'real-first-run-value', f'{b1}: first run returned {info["first"]}', first=b1, second=b2))
+            if not all(info['is_cached_after_first'].values()):
+                vs.append(O.V('C06', 'real-not-cached', f'after a successful first run under {b1} (task classes defined in __main__) '
+                              f'is_cached says {info["is_cached_after_first"]}', first=b1, second=b2))
+            if info['second'] != want:
+                vs.append(O.V('C06', 'real-second-run-value', f'{b1} -> {b2}: second run returned {info["second"]}', first=b1, second=b2))
+            if info['executed_second']:
+                vs.append(O.V('C06', 'real-second-run-executed', f'{b1} -> {b2}: the second run called run() again for {info["executed_second"]}',
+                              first=b1, second=b2))
+            if info['meta_first'] != info['meta_second']:
+                vs.append(O.V('C06', 'real-meta-differs', f'{b1} -> {b2}: result_meta {info["meta_second"]} != originally recorded {info["meta_first"]}',
+                              first=b1, second=b2))
+        finally:
+            shutil.rmtree(d, ignore_errors=True)
+    return vs, {'real_history_runs': n, 'real_history_samples': samples[:3]}
+
+
+C06.batch_extra = _c06_batch_extra
 CHECKS['C06'] = C06()
